@@ -22,7 +22,7 @@ def decode_datetime(obj):
     return reference + offsets
 
 
-def decode_array(encoded, records_per_chunk):
+def decode_array(encoded, records_per_chunk, fs=None):
     def default_decode(obj):
         return np.array(obj["data"], dtype=obj["dtype"])
 
@@ -33,10 +33,14 @@ def decode_array(encoded, records_per_chunk):
 
         return decoder(encoded)
 
-    mapper = fsspec.get_mapper(encoded["root"])
     from fsspec.implementations.dirfs import DirFileSystem
 
-    fs = DirFileSystem(path=mapper.root, fs=mapper.fs)
+    if fs is None:
+        mapper = fsspec.get_mapper(encoded["root"])
+        fs = DirFileSystem(path=mapper.root, fs=mapper.fs)
+    else:
+        # the stored root has no protocol: resolve it on the filesystem the product was opened with
+        fs = DirFileSystem(path=fs._strip_protocol(encoded["root"]), fs=fs)
 
     type_code = encoded["type_code"]
     url = encoded["url"]
@@ -54,19 +58,21 @@ def decode_array(encoded, records_per_chunk):
     )
 
 
-def decode_variable(encoded, records_per_chunk):
-    data = decode_array(encoded["data"], records_per_chunk=records_per_chunk)
+def decode_variable(encoded, records_per_chunk, fs=None):
+    data = decode_array(encoded["data"], records_per_chunk=records_per_chunk, fs=fs)
 
     return Variable(dims=encoded["dims"], data=data, attrs=encoded["attrs"])
 
 
-def decode_group(encoded, records_per_chunk):
-    data = valmap(curry(decode_hierarchy, records_per_chunk=records_per_chunk), encoded["data"])
+def decode_group(encoded, records_per_chunk, fs=None):
+    data = valmap(
+        curry(decode_hierarchy, records_per_chunk=records_per_chunk, fs=fs), encoded["data"]
+    )
 
     return Group(path=encoded["path"], url=encoded["url"], data=data, attrs=encoded["attrs"])
 
 
-def decode_hierarchy(encoded, records_per_chunk):
+def decode_hierarchy(encoded, records_per_chunk, fs=None):
     type_ = encoded.get("__type__")
 
     decoders = {
@@ -77,4 +83,4 @@ def decode_hierarchy(encoded, records_per_chunk):
     if decoder is None:
         return encoded
 
-    return decoder(encoded, records_per_chunk=records_per_chunk)
+    return decoder(encoded, records_per_chunk=records_per_chunk, fs=fs)
